@@ -1431,23 +1431,10 @@ class LazyStackedTensorDict(TensorDictBase):
                 in_dim = in_dim - 1
                 stack_dim = td.stack_dim
 
-            def addbatchdim(_arg):
-                return _add_batch_dim(_arg, in_dim, vmap_level)
-
+            # each member hides the dim itself: every node of a member drops the dim from
+            # its own batch size, so nested tensordicts keep their extra batch dims
             tds = [
-                td._fast_apply(
-                    addbatchdim,
-                    batch_size=[b for i, b in enumerate(td.batch_size) if i != in_dim],
-                    names=(
-                        # no names rather than an empty list when no batch dim is left
-                        (
-                            [name for i, name in enumerate(td.names) if i != in_dim]
-                            or None
-                        )
-                        if self._has_names()
-                        else None
-                    ),
-                )
+                td._add_batch_dim(in_dim=in_dim, vmap_level=vmap_level)
                 for td in td.tensordicts
             ]
             result = LazyStackedTensorDict(*tds, stack_dim=stack_dim)
